@@ -116,8 +116,13 @@ Parts == {"around", "alone", "comment", "verbatim", "between"}
 SetOf(p) == CASE p = "around" -> Around [] p = "alone" -> AloneC [] p = "comment" -> Comments
               [] p = "verbatim" -> Verbs [] p = "between" -> Between
 
-Init == cs \in {[part |-> p] : p \in Parts}
-Next == "part" \in DOMAIN cs /\ cs' \in {c \in SetOf(cs.part) : Admissible(c)}
+\* partitions: the big family is cut by tag kind and left literal so that TLC's workers share it
+Init == cs \in {[part |-> p, k |-> "", l |-> <<>>] : p \in Parts \ {"around"}}
+             \cup {[part |-> "around", k |-> k, l |-> l] : k \in TagKinds, l \in Strs(Alphabet, Side)}
+Next == "part" \in DOMAIN cs /\
+        cs' \in (IF cs.part = "around"
+                 THEN {c \in {[fam |-> "around", k |-> cs.k, l |-> cs.l, r |-> r] : r \in Strs(Alphabet, Side)} : Admissible(c)}
+                 ELSE {c \in SetOf(cs.part) : Admissible(c)})
 Spec == Init /\ [][Next]_cs
 IsCase == "fam" \in DOMAIN cs
 Emit == IsCase => PrintT(ToJson(IF cs.fam = "verbatim" /\ cs.b \in HandVerb THEN CaseOfVerbTags(cs) ELSE CaseOf(cs)))
